@@ -640,6 +640,15 @@ class Interp:
     def _exc_matches(self, exc, type_node):
         ref = self.a.res.resolve(type_node, self.m) if not isinstance(type_node, ast.Tuple) else \
             tuple(self.a.res.resolve(e, self.m) for e in type_node.elts)
+        unresolved_ = ref is None or (isinstance(ref, tuple) and any(r_ is None for r_ in ref)) \
+            or (isinstance(type_node, ast.Name) and type_node.id in self.env)
+        if unresolved_:
+            # `except tolerated:` - the classes are whatever the expression evaluates to
+            val_ = self.ev(type_node)
+            vals_ = val_ if isinstance(val_, (tuple, list)) else (val_,)
+            if not all(isinstance(v_, Ref) for v_ in vals_):
+                raise Unmodelled(f'except clause over {val_!r}')
+            ref = tuple(v_.ref for v_ in vals_)
         if self.isinstance_fn is None or (isinstance(exc, Ref) and exc.ref.startswith('builtin:')):
             return self._isinstance(exc, ref)
         return self.isinstance_fn(exc, ref) or (isinstance(exc, Ref) and self._isinstance(exc, ref))
@@ -676,6 +685,29 @@ class Interp:
             return Ref(ref)
         v = self.ev(node)
         return v
+
+    def _namedtuple_fields(self, ref):
+        """Field names of a class one of whose bases is written collections.namedtuple('Name', fields); None otherwise."""
+        cache_ = self.a.__dict__.setdefault('_nt_fields_cache', {})
+        if ref in cache_:
+            return cache_[ref]
+        out_ = None
+        try:
+            mro_ = self.a.res.mro(ref)
+        except Exception:       # noqa: BLE001 - not a class of the package
+            mro_ = []
+        for m_, cnode_ in mro_:
+            for b_ in cnode_.bases:
+                if isinstance(b_, ast.Call) and self.a.res.resolve(b_.func, m_) == 'ext:collections.namedtuple' and len(b_.args) >= 2:
+                    try:
+                        fields_ = ast.literal_eval(b_.args[1])
+                    except ValueError:
+                        continue
+                    if isinstance(fields_, str):
+                        fields_ = fields_.replace(',', ' ').split()
+                    out_ = [str(f_) for f_ in fields_]
+        cache_[ref] = out_
+        return out_
 
     @staticmethod
     def _nt_seq(v):
@@ -1127,6 +1159,16 @@ class Interp:
                 made_ = self._class_callable(recv.f['cls'], fn.attr)
                 if made_ is not None:
                     return self.invoke(made_, [recv] + list(args), kwargs)
+                if '__nt__' in recv.f and fn.attr in ('_make', '_replace', '_asdict', 'index', 'count'):
+                    if fn.attr == '_make' and len(args) == 1:
+                        return self._construct(recv.f['cls'], list(self._nt_seq(args[0])), {})
+                    if fn.attr == '_replace' and not args:
+                        cur_ = {n_: recv.f[n_] for n_ in recv.f['__nt__']}
+                        cur_.update(kwargs)
+                        return self._construct(recv.f['cls'], [], cur_)
+                    if fn.attr == '_asdict' and not args:
+                        return {n_: recv.f[n_] for n_ in recv.f['__nt__']}
+                    return getattr(self._nt_seq(recv), fn.attr)(*args)
                 if '__native__' in recv.f and hasattr(recv.f['__native__'], fn.attr) and not fn.attr.startswith('__'):
                     # instance of a subclass of a builtin container: the inherited builtin method on the stored items
                     try:
@@ -1134,6 +1176,8 @@ class Interp:
                     except (KeyError, IndexError, ValueError, TypeError) as exc:
                         raise ExcRaised(Ref(f'builtin:{type(exc).__name__}'))
                     return list(res_) if fn.attr in ('items', 'keys', 'values') else res_
+            if isinstance(recv, Ref) and self._is_pkg_class(recv.ref) and fn.attr == '_make' and len(args) == 1 and self._namedtuple_fields(recv.ref) is not None:
+                return self._construct(recv.ref, list(self._nt_seq(args[0])), {})
             if isinstance(recv, Ref) and self._is_pkg_class(recv.ref) and self.depth < self.max_depth:
                 key_ = f'{recv.ref}.{fn.attr}'
                 if key_ in self.call_models:
@@ -1518,6 +1562,8 @@ class Interp:
                     return res
             if fn.id == 'bool' and len(args) == 1 and isinstance(args[0], (Rec, PyModel, Ref)):
                 return self.truth(args[0]) if isinstance(args[0], (Rec, Ref)) else bool(args[0])
+            if fn.id in ('zip', 'tuple', 'list', 'len', 'enumerate', 'reversed', 'sorted', 'sum', 'min', 'max', 'any', 'all', 'set'):
+                args = [self._nt_seq(a_) for a_ in args]          # a NamedTuple instance is the tuple of its fields
             for a_ in args:
                 if isinstance(a_, (Opaque, Ref, Rec)):
                     return Opaque(fn.id)
@@ -2340,6 +2386,17 @@ class Interp:
                 inst.f['__native__'] = builtin_base_(*args, **kwargs) if init_i is None else builtin_base_()
             except (TypeError, ValueError) as exc:
                 raise ExcRaised(Ref(f'builtin:{type(exc).__name__}'))
+        nt_names_ = self._namedtuple_fields(ref)
+        if nt_names_ is not None:
+            bound_ = dict(zip(nt_names_, args))
+            if len(args) > len(nt_names_) or any(k_ not in nt_names_ or k_ in bound_ for k_ in kwargs):
+                raise ExcRaised(Ref('builtin:TypeError'))
+            bound_.update(kwargs)
+            if any(n_ not in bound_ for n_ in nt_names_):
+                raise ExcRaised(Ref('builtin:TypeError'))
+            inst = Rec(cls=ref, **bound_)
+            inst.f['__nt__'] = tuple(nt_names_)
+            return inst
         if any(b == 'ext:typing.NamedTuple' for b in self.a.res.base_refs(ref)):
             names_, defaults_ = [], {}
             for m_, cnode_ in reversed(self.a.res.mro(ref)):
